@@ -44,6 +44,8 @@ func c13Single() []c13Spelling {
 		{"no blanks after colons", model.Style{TightColon: true}, false},
 		{"extra blank lines and trailing blanks", model.Style{ExtraBlank: true}, false},
 		{"string examples written with \\u escapes", model.Style{LitEscapes: true}, false},
+		{"tab / no blank / several blanks after the annotation marker", model.Style{Gaps: true}, false},
+		{"other blanks after the annotation marker, /* */ form", model.Style{Gaps: true, MultiLine: 1}, false},
 		{"empty inline annotations", model.Style{BareAnnot: true}, false},
 		{"empty inline annotations, CRLF", model.Style{BareAnnot: true, NL: "\r\n"}, false},
 		{"rule order permuted", model.Style{}, true},
@@ -62,6 +64,7 @@ func c13Random(r *mon.Rng) c13Spelling {
 		ExtraBlank:    r.Bool(),
 		LitEscapes:    r.Bool(),
 		BareAnnot:     r.Chance(1, 3),
+		Gaps:          r.Chance(1, 3),
 		Mixed:         r.Fork(),
 	}
 	return c13Spelling{"random composition", st, r.Bool()}
